@@ -19,6 +19,15 @@ marker `.ill` of an ill-formed instantiation (so `isDefined` is not satisfied va
 * `shr_total`, `shr_value`   `>>`, every count ≥ 0, with the exact value (since the repair of
   `shr_count_ge_width`).
 * `neg_total`, `convert_total`; `convert_float_total` (floating-point sources, see section 8).
+* `wrapper_convert_total`   an overflow_integer converted as a number (constructors, assignment, conversion operator).
+* `radix_scale_total`       radix-changing scaled_integer conversion into an overflow_integer representation,
+  multiplying shape on the intrinsic path (`CnlProperties/C06.lean: radix_scale_correct`); the other shapes of
+  `radixConvert` are covered by correspondence only (`sxr` lines).
+* Covered by correspondence only (no theorem in this file): release builds (`CNL_RELEASE`: the model has one
+  reaction per tag, the harness observes through the hook that the trapping tag aborts and never reaches
+  `_impl::unreachable`, in a third of the translation units and in dedicated trapping-tag units); static_integer /
+  static_number operations at full width of the word (`sn` lines, evaluated by the C11 model
+  `CnlModel/Static.lean`, whose theorems are in `CnlProperties/C11.lean`).
 * refutations of the **as-found** definitions of the repaired findings `C07.shl_zero_by_wide_count`,
   `C07.shr_count_ge_width`, `C07.float_at_limit_not_flagged` (the as-found operators are kept as
   `checkedShiftOrig`, `checkedConvertFloatOrig`): `shl_zero_wide_ub`, `shr_wide_ub`, `float_at_limit_ub`.
@@ -106,6 +115,27 @@ theorem convert_total (tag : OvTag) (ht : Checked tag) (S D : IntTy) (hS : 1 ≤
 example : checkedNeg .sat (i32, -2147483648) = .ok (i32, 2147483647) := by decide
 example : checkedNeg .trp (i64, -9223372036854775808) = .trap true := by decide
 example : checkedConvert .thr i8 (u64, 18446744073709551615) = .throws true := by decide
+
+/-- an overflow_integer converted as a number (constructor from a related or unrelated wrapper or a built-in,
+assignment, conversion operator to a built-in) under a checked tag is total, for every source and destination type -/
+theorem wrapper_convert_total (tag : OvTag) (ht : Checked tag) (S D : IntTy) (hS : 1 ≤ S.digits) (hD : 1 ≤ D.bits)
+    (v : Int) (hv : S.InRange v) : Total (wrapperConvert tag D (S, v)) :=
+  convert_defined ht hS hD hv
+
+example : wrapperConvert .trp u32 (i32, -2) = .trap false := by decide
+
+/-- `scaled_integer<S, power<0, rS>>` → `scaled_integer<overflow_integer<D, tag>, power<-k, rD>>` (different radixes,
+intrinsic path, source at least `int` wide, `rD^k` in its range): total — the multiplication is never executed
+unchecked -/
+theorem radix_scale_total (tag : OvTag) (ht : Checked tag) (S D : IntTy) (hp32 : promote S = S) (hS : 1 ≤ S.digits)
+    (hD : 1 ≤ D.bits) (rS rD : Nat) (k : Nat) (hk : 0 < k) (hp : S.InRange ((rD : Int) ^ k)) (v : Int)
+    (hv : S.InRange v) :
+    Total (radixConvert .builtin tag S 0 rS D (-(k : Int)) rD v) := by
+  rw [radixConvert_mul_eq ht.ne_nat hp32 hS hD rS rD k hk hp hv]
+  exact good_bind (want_defined ht _ _) (fun _ => want_defined ht _ _)
+
+example : radixConvert .builtin .sat i32 0 2 i32 (-3) 10 3000000 = .ok (i32, 2147483647) := by decide +kernel
+example : radixConvert .builtin .trp i32 0 2 i32 (-3) 10 (-2147483648) = .trap false := by decide +kernel
 
 /-- `<<` under a checked tag is total for **every** count `r ≥ 0` (counts at and beyond the width
 included) and every operand types, both paths.  No excluded class since the repair of
